@@ -9,6 +9,7 @@ from ..cfg import CFG
 from ..loader import AnalysisError, body_of
 
 CONT, ELEM, PACKED, TIME, UNP = "CONT", "ELEM", "PACKED", "TIME", "UNPACKED"
+NORET = "NORET"
 
 
 # ------------------------------------------------------------------ containers
@@ -17,18 +18,24 @@ def spill_containers(repo):
     out = {}
     for c in repo.all_classes():
         for f in c.methods.values():
-            packed_names = set()
+            packed_names, entry_names = set(), set()
             for n in fn_walk(f.node):
                 if isinstance(n, ast.Assign) and _is_pack_call(n.value):
                     for t in n.targets:
                         if isinstance(t, ast.Name):
                             packed_names.add(t.id)
+
+            def is_entry(e):
+                return isinstance(e, ast.Tuple) and len(e.elts) == 2 and (_is_pack_call(e.elts[1]) or (isinstance(e.elts[1], ast.Name) and e.elts[1].id in packed_names))
+
+            for n in fn_walk(f.node):
+                if isinstance(n, ast.Assign) and is_entry(n.value):  # entry = (time, self._pack(x))
+                    entry_names |= {t.id for t in n.targets if isinstance(t, ast.Name)}
             for n in fn_walk(f.node):
                 if (isinstance(n, ast.Call) and isinstance(n.func, ast.Attribute) and n.func.attr == "append"
-                        and self_attr(n.func.value) and n.args and isinstance(n.args[0], ast.Tuple)
-                        and len(n.args[0].elts) == 2):
-                    p = n.args[0].elts[1]
-                    if _is_pack_call(p) or (isinstance(p, ast.Name) and p.id in packed_names):
+                        and self_attr(n.func.value) and n.args):
+                    a = n.args[0]
+                    if is_entry(a) or (isinstance(a, ast.Name) and a.id in entry_names):
                         out.setdefault(c.name, {})[self_attr(n.func.value)] = (f, n)
     return out
 
@@ -49,9 +56,20 @@ def owners(repo):
                 for attr, (f, _n) in conts[k.name].items():
                     # the filling method must be the one this class really resolves to
                     # (adapters override Output.push_data and never fill Output's history)
-                    if _reaches(repo, c, repo.resolve(c, f.name, "method"), f) and (c, attr) not in res:
+                    if _entry_reaches(repo, c, f) and (c, attr) not in res:
                         res.append((c, attr))
     return conts, res
+
+
+def _entry_reaches(repo, c, f):
+    """f is executed for instances of class c: some public method c resolves to is f or reaches it through self. / super().
+    calls (a helper inherited from a base class whose public caller is overridden is dead code for c)."""
+    cache = repo.__dict__.setdefault("_entry_reaches", {})
+    key = (c.name, f.qualname)
+    if key not in cache:
+        names = {n for k in repo.mro(c) for n in k.methods if not n.startswith("_")}
+        cache[key] = any(_reaches(repo, c, repo.resolve(c, n, "method"), f) for n in sorted(names))
+    return cache[key]
 
 
 def _reaches(repo, c, g, f, depth=0):
@@ -158,17 +176,22 @@ class _Pack:
             if name in self.sel and isinstance(fn, (ast.Name, ast.Attribute)) and not (isinstance(fn, ast.Attribute) and self_attr(fn)):
                 picked = [tags[i] for i in self.sel[name] if i < len(tags)]
                 return PACKED if PACKED in picked else None
-            if isinstance(fn, ast.Attribute) and self_attr(fn) and PACKED in tags and depth < 3:
+            callee = None
+            if isinstance(fn, ast.Attribute) and self_attr(fn):
                 callee = self.repo.resolve(self.cls, self_attr(fn), "method")
-                if callee is not None:
-                    env2 = {}
-                    for p, tg in zip(callee.params, tags):
-                        env2[p] = tg
-                    before = len(self.viol)
-                    ret = self.run(body_of(callee.node), env2, callee, depth + 1)
-                    if len(self.viol) == before:
-                        return ret
-                    return None
+            elif isinstance(fn, ast.Name):
+                # a helper function of the repository: its body is analysed with the tags bound to its parameters
+                callee = self._module_func(f, fn.id)
+            if callee is not None and depth < 5 and (PACKED in tags + ktags or self._touches(callee)):
+                env2 = dict(zip(callee.params, tags))
+                for k, tg in zip(e.keywords, ktags):
+                    if k.arg:
+                        env2[k.arg] = tg
+                before = len(self.viol)
+                reads = self.reads
+                ret = self.run(body_of(callee.node), env2, callee, depth + 1)
+                self.reads = reads  # reads inside a helper are counted where the helper itself is analysed
+                return (None if ret is NORET else ret) if len(self.viol) == before else None
             for a, tg in zip(list(e.args) + [k.value for k in e.keywords], tags + ktags):
                 if tg == PACKED:
                     self.viol.append((f, e, f"packed buffer entry (possibly a spill-file name) passed to {U(fn)}()"))
@@ -196,6 +219,50 @@ class _Pack:
                 self.ev(c, env, f, depth)
         return None
 
+    def _touches(self, callee):
+        """The callee mentions the container (directly): its result may carry entries."""
+        cache = self.repo.__dict__.setdefault("_r22_touches", {})
+        key = (callee.qualname, self.cont)
+        if key not in cache:
+            cache[key] = any(isinstance(n, ast.Attribute) and self_attr(n) == self.cont for n in fn_walk(callee.node))
+        return cache[key]
+
+    def _sink(self, f):
+        """Results of public methods and of hook methods (declared abstract somewhere above) leave the class."""
+        name = getattr(f, "name", "") or ""
+        if not name.startswith("_") or name == "probe":
+            return True
+        cls = getattr(f, "cls", None)
+        if cls is None:
+            return True
+        for k in self.repo.mro(cls):
+            g = k.methods.get(name)
+            if g is not None and any("abstractmethod" in U(d) for d in g.node.decorator_list):
+                return True
+        return False
+
+    def _merge(self, a, b):
+        if b is NORET:
+            return a
+        if a is NORET:
+            return b
+        return self._join(a, b)
+
+    @staticmethod
+    def _join(a, b):
+        if a == b:
+            return a
+        if isinstance(a, tuple) and isinstance(b, tuple) and a[0] == b[0] == "TUP" and len(a[1]) == len(b[1]):
+            return ("TUP", [_Pack._join(x, y) for x, y in zip(a[1], b[1])])
+        return None
+
+    def _module_func(self, f, name):
+        mod = getattr(f, "module", None)
+        if mod is not None and name in getattr(mod, "funcs", {}):
+            return mod.funcs[name]
+        found = [m.funcs[name] for m in self.repo.modules.values() if name in m.funcs]
+        return found[0] if len(found) == 1 else None
+
     def bind(self, target, tag, env):
         if isinstance(target, ast.Name):
             env[target.id] = tag
@@ -215,7 +282,7 @@ class _Pack:
                     self.bind(t, None, env)
 
     def run(self, stmts, env, f, depth=0):
-        ret = None
+        ret = NORET
         for s in stmts:
             if isinstance(s, ast.Assign):
                 tag = self.ev(s.value, env, f, depth)
@@ -228,32 +295,31 @@ class _Pack:
                 it = self.ev(s.iter, env, f, depth)
                 self.bind(s.target, ELEM if it == CONT else it, env)
                 r = self.run(s.body, env, f, depth)
-                ret = ret or r
+                ret = self._merge(ret, r)
                 self.run(s.orelse, env, f, depth)
             elif isinstance(s, ast.Return):
                 tag = self.ev(s.value, env, f, depth)
-                if tag == PACKED:
-                    if depth == 0:
-                        self.viol.append((f, s, "packed buffer entry (possibly a spill-file name) returned without _unpack"))
-                    ret = PACKED
+                if tag == PACKED and depth == 0 and self._sink(f):
+                    self.viol.append((f, s, "packed buffer entry (possibly a spill-file name) returned without _unpack"))
+                ret = self._merge(ret, tag)
             elif isinstance(s, (ast.If, ast.While)):
                 self.ev(s.test, env, f, depth)
                 e1, e2 = dict(env), dict(env)
                 r1 = self.run(s.body, e1, f, depth)
                 r2 = self.run(s.orelse, e2, f, depth)
-                ret = ret or r1 or r2
+                ret = self._merge(self._merge(ret, r1), r2)
                 for k in set(e1) | set(e2):
                     a, b = e1.get(k), e2.get(k)
                     env[k] = a if a == b else None
             elif isinstance(s, ast.With):
                 r = self.run(s.body, env, f, depth)
-                ret = ret or r
+                ret = self._merge(ret, r)
             elif isinstance(s, ast.Expr):
                 self.ev(s.value, env, f, depth)
             elif isinstance(s, ast.Try):
                 for blk in [s.body] + [h.body for h in s.handlers] + [s.orelse, s.finalbody]:
                     r = self.run(blk, env, f, depth)
-                    ret = ret or r
+                    ret = self._merge(ret, r)
         return ret
 
 
@@ -562,7 +628,7 @@ def _pack_sites(repo, c):
     seen = set()
     for k in repo.mro(c):
         for f in k.methods.values():
-            if repo.resolve(c, f.name, "method") is not f or f.qualname in seen:
+            if repo.resolve(c, f.name, "method") is not f or f.qualname in seen or not _entry_reaches(repo, c, f):
                 continue
             for n in fn_walk(f.node):
                 if _is_pack_call(n) and n.args:
